@@ -98,6 +98,9 @@ func (env *Env) lookupLocal(name string) (Value, bool) {
 	if env.frame == nil {
 		return nil, false
 	}
+	if name == "$k" {
+		name = "rangeindex"
+	}
 	fr := env.frame
 	st := env.st
 	if env.inOld && env.old != nil {
@@ -362,6 +365,10 @@ func (e *Engine) evalSel(env *Env, n *cexpr.Node) Value {
 		panic(fmt.Sprintf("unknown member %s.%s", v.Pkg.Pkg.Name(), n.Name))
 	case PtrV:
 		return e.selPtr(env, v, n.Name)
+	case FuncRefV:
+		if n.Name == "unfold" && v.Fn != nil {
+			return FuncRefV{Name: "unfold", Fn: v.Fn}
+		}
 	case StructV:
 		idx, t := fieldPath(v.Typ, n.Name)
 		if idx == nil {
@@ -571,6 +578,31 @@ func (e *Engine) valueEq(x, y Value, ident bool) *smt.Term {
 func (e *Engine) evalCall(env *Env, n *cexpr.Node) Value {
 	callee := n.Args[0]
 	args := n.Args[1:]
+	if callee.Kind == "sel" {
+		switch callee.Name {
+		case "Len", "Top", "At", "Push", "Pop", "SetTop":
+			if sq, ok := e.eval(env, callee.Args[0]).(SeqV); ok {
+				var a *smt.Term
+				if len(args) > 0 {
+					a = e.evalInt(env, args[0])
+				}
+				switch callee.Name {
+				case "Len":
+					return IntV{sq.Len}
+				case "Top":
+					return IntV{smt.Select(sq.Arr, smt.Sub(sq.Len, smt.IntC(1)))}
+				case "At":
+					return IntV{smt.Select(sq.Arr, a)}
+				case "Push":
+					return SeqV{Arr: smt.Store(sq.Arr, sq.Len, a), Len: smt.Add(sq.Len, smt.IntC(1))}
+				case "Pop":
+					return SeqV{Arr: sq.Arr, Len: smt.Sub(sq.Len, smt.IntC(1))}
+				case "SetTop":
+					return SeqV{Arr: smt.Store(sq.Arr, smt.Sub(sq.Len, smt.IntC(1)), a), Len: sq.Len}
+				}
+			}
+		}
+	}
 	f := e.eval(env, callee)
 	fr, ok := f.(FuncRefV)
 	if !ok {
@@ -593,6 +625,16 @@ func (e *Engine) evalCall(env *Env, n *cexpr.Node) Value {
 			c.vars[p] = e.eval(env, args[i])
 		}
 		return e.eval(c, fr.Pred.Body)
+	}
+	if fr.Fn != nil && fr.Name == "unfold" {
+		vals := make([]Value, len(args))
+		for i, a := range args {
+			vals[i] = e.eval(env, a)
+			if i < fr.Fn.Signature.Params().Len() {
+				vals[i] = e.coerce(vals[i], fr.Fn.Signature.Params().At(i).Type())
+			}
+		}
+		return BoolV{e.unfoldInstance(env.st, fr.Fn, vals)}
 	}
 	if fr.Fn != nil {
 		vals := make([]Value, len(args))
